@@ -367,11 +367,31 @@ def r20b(rep, prog):
                                   key='R20c|%s|value' % os.path.basename(prog.tu))
             else:
                 defs = ex.assignments_to(kfn, xv)
-                from_opt = [d for (d, rhs) in defs if rhs is not None and common.option_atom(rhs) == ('opt', 'cores')]
+                # a local bound to the option at declaration:  ("cores", po::value<int>(&local))  stores the parsed value into it
+                bound = set()
+                for oc in kfn.walk():
+                    if oc.k == 'CXXOperatorCallExpr' and oc.op == '()' and len(oc.c) >= 3:
+                        nm = oc.c[2].strip_all() if len(oc.c) > 2 else None
+                        key = nm.value if nm is not None and nm.k == 'StringLiteral' else None
+                        if isinstance(key, str) and key.split(',')[0] == 'cores':
+                            for x in oc.c[3].walk() if len(oc.c) > 3 else ():
+                                if x.k == 'UnaryOperator' and x.op == '&' and ex.var_of(x.c[0]) is not None:
+                                    bv = ex.var_of(x.c[0])
+                                    if all(dn.k == 'VarDecl' for (dn, _r) in ex.assignments_to(kfn, bv)):
+                                        bound.add(bv)
+                from_opt = [d for (d, rhs) in defs if rhs is not None and (common.option_atom(rhs) == ('opt', 'cores') or ex.var_of(rhs) in bound)]
                 vprobs = []
                 cfg_k = kfn.cfg
                 if not from_opt:
-                    vprobs.append('the variable is never assigned from vm["cores"]')
+                    opaque_rhs = [rhs for (d, rhs) in defs if rhs is not None and rhs.strip_all().cv is None and
+                                  not any(x.k in ex.CALL_KINDS and x.callee and x.callee['name'] in ('hardware_concurrency', 'max_allowed_parallelism', 'default_concurrency')
+                                          for x in [rhs.strip_all()] + list(rhs.walk()))]
+                    if opaque_rhs:
+                        rep.undecided('R20c', kcall, main, whatv, 'the argument is assigned from `%s`, whose relation to --cores is not traced' % opaque_rhs[0].text(40))
+                        defs = []
+                        vprobs = None
+                    else:
+                        vprobs.append('the variable is never assigned from vm["cores"]')
                 for (d, rhs) in defs:
                     if d in from_opt:
                         continue
@@ -392,7 +412,9 @@ def r20b(rep, prog):
                     if 'zero' in ex.f_atoms(g) and implies(g, ex.f_atom('zero')):
                         continue
                     vprobs.append('`%s` (line %d) replaces the requested value also when it is not 0' % (d.text(50), d.line))
-                if vprobs:
+                if vprobs is None:
+                    pass
+                elif vprobs:
                     rep.violation('R20c', kcall, main, whatv, '; '.join(vprobs), key='R20c|%s|value' % os.path.basename(prog.tu))
                 else:
                     rep.ok('R20c', kcall, main, whatv, 'assigned from vm["cores"]; only re-assigned under == 0')
